@@ -182,7 +182,11 @@ func (ex *Exec) mergeStates(ins []edgeState) *State {
 func (ex *Exec) compSort(k string) string {
 	if hc, ok := ex.vc.heapT[k]; ok {
 		if hc.isArr {
-			return sx("Array", "Int", hc.sort)
+			ix := hc.idx
+			if ix == "" {
+				ix = "Int"
+			}
+			return sx("Array", ix, hc.sort)
 		}
 		return hc.sort
 	}
@@ -362,6 +366,8 @@ func (ex *Exec) loopHead(fr *Frame, li *loopInfo, st *State) {
 	// havoc
 	ms := ex.loopModSet(fr, li)
 	ex.havocModSet(fr, st, ms, fmt.Sprintf("L%d", li.number))
+	// range-over-slice loops: the hidden index stays within [-1, len) by construction of the lowering
+	ex.rangeIndexFact(fr, li, st)
 	// assume invariants
 	for _, inv := range li.spec.Invariants {
 		ex.assume(st, ex.specBool(fr, st, inv))
@@ -776,4 +782,35 @@ func (ex *Exec) isHeapAlloc(a *ssa.Alloc) bool {
 		}
 	}
 	return false
+}
+
+// rangeIndexFact recognises the header of a lowered "for range slice" loop
+//   t1 = *rangeindex; t2 = t1 + 1; *rangeindex = t2; t3 = t2 < tLen; if t3 ...
+// and assumes -1 <= rangeindex < max(len, 0) (or rangeindex == -1) at the loop head.
+func (ex *Exec) rangeIndexFact(fr *Frame, li *loopInfo, st *State) {
+	ins := li.header.Instrs
+	if len(ins) < 5 {
+		return
+	}
+	ld, ok := ins[0].(*ssa.UnOp)
+	if !ok || ld.Op != token.MUL {
+		return
+	}
+	a, ok := ld.X.(*ssa.Alloc)
+	if !ok || a.Comment != "rangeindex" {
+		return
+	}
+	cmp, ok := ins[3].(*ssa.BinOp)
+	if !ok || cmp.Op != token.LSS {
+		return
+	}
+	lv, ok := fr.vals[cmp.Y].(Term)
+	if !ok {
+		return
+	}
+	cur, ok := st.cells[a].(Term)
+	if !ok {
+		return
+	}
+	ex.assume(st, sAnd(sx("<=", "(- 1)", cur.S), sOr(sx("<", cur.S, lv.S), sEq(cur.S, "(- 1)"))))
 }
